@@ -3,109 +3,9 @@
    semantics of Model/PyIR.v, gives exactly the model's result - state, outcome and warnings. *)
 From Coq Require Import String ZArith List Bool Lia.
 From XV Require Import Base.Label Base.LSet Base.ODict Base.Attr Base.Outcome Model.Hypergraph Model.PyIR Gen.Mutators
-     Proofs.HgViews Proofs.HgInv Proofs.HgInvOps Proofs.HgErrors.
+     Proofs.HgViews Proofs.HgInv Proofs.HgInvOps Proofs.HgErrors Proofs.IRLemmas.
 Import ListNotations.
 Open Scope Z_scope.
-
-(* ---------- unfolding lemmas for the interpreter ---------- *)
-Lemma exec_if c th el en s :
-  exec (SIf c th el) en s =
-  match beval c en s with
-  | inr e => (s, Raised e)
-  | inl true => exec_list th en s
-  | inl false => exec_list el en s
-  end.
-Proof.
-  cbn [exec]. destruct (beval c en s) as [[|]|e]; [| |reflexivity].
-  - generalize s. induction th as [|q r IH]; intro s0; [reflexivity|]. cbn [exec_list]. destruct (exec q en s0) as [s' [|x]]; [apply IH|reflexivity].
-  - generalize s. induction el as [|q r IH]; intro s0; [reflexivity|]. cbn [exec_list]. destruct (exec q en s0) as [s' [|x]]; [apply IH|reflexivity].
-Qed.
-
-Fixpoint iter_list (body : list stmt) (en : env) (xs : list lbl) (s : hg) : hg * outcome :=
-  match xs with
-  | [] => (s, Ok)
-  | x :: r => match exec_list body (with_loop en x) s with (s', Ok) => iter_list body en r s' | y => y end
-  end.
-
-Lemma exec_for t k body en s :
-  exec (SForCopy t k body) en s =
-  match get (veval k en) (tab t s) with
-  | None => (s, Raised IDNotFound)
-  | Some m => iter_list body en m s
-  end.
-Proof.
-  cbn [exec]. destruct (get (veval k en) (tab t s)) as [m|]; [|reflexivity].
-  generalize s. induction m as [|x r IH]; intro s0; [reflexivity|]. cbn [iter_list].
-  assert (E : forall l s1, (fix go (l : list stmt) (s : hg) : hg * outcome :=
-               match l with [] => (s, Ok)
-               | q :: r' => match exec q (with_loop en x) s with (s', Ok) => go r' s' | y => y end end) l s1
-             = exec_list l (with_loop en x) s1).
-  { induction l as [|q r' IHl]; intro s1; [reflexivity|]. cbn [exec_list]. destruct (exec q _ s1) as [s' [|y]]; [apply IHl|reflexivity]. }
-  rewrite E. destruct (exec_list body _ s0) as [s' [|y]]; [apply IH|reflexivity].
-Qed.
-
-Lemma exec_newset t k en s : exec (SNewSet t k) en s =
-  if is_none (veval k en) then (s, Raised XGIError) else (set_tab t s (set (veval k en) [] (tab t s)), Ok).
-Proof. reflexivity. Qed.
-Lemma exec_newattr t k en s : exec (SNewAttr t k) en s =
-  if is_none (veval k en) then (s, Raised XGIError) else (set_atab t s (set (veval k en) [] (atab t s)), Ok).
-Proof. reflexivity. Qed.
-Lemma exec_add t k x en s : exec (SAdd t k x) en s =
-  match get (veval k en) (tab t s) with
-  | Some m => (set_tab t s (set (veval k en) (sadd (veval x en) m) (tab t s)), Ok)
-  | None => (s, Raised IDNotFound)
-  end.
-Proof. reflexivity. Qed.
-Lemma exec_remove t k x en s : exec (SRemove t k x) en s =
-  match get (veval k en) (tab t s) with
-  | Some m => if mem (veval x en) m then (set_tab t s (set (veval k en) (sremove (veval x en) m) (tab t s)), Ok) else (s, Raised KeyError)
-  | None => (s, Raised IDNotFound)
-  end.
-Proof. reflexivity. Qed.
-Lemma exec_del t k en s : exec (SDel t k) en s =
-  if has (veval k en) (tab t s) then (set_tab t s (del (veval k en) (tab t s)), Ok) else (s, Raised IDNotFound).
-Proof. reflexivity. Qed.
-Lemma exec_delattr t k en s : exec (SDelAttr t k) en s =
-  if has (veval k en) (atab t s) then (set_atab t s (del (veval k en) (atab t s)), Ok) else (s, Raised IDNotFound).
-Proof. reflexivity. Qed.
-Lemma exec_uid k en s : exec (SUid k) en s = (bump_uid (veval k en) s, Ok).
-Proof. reflexivity. Qed.
-Lemma exec_raise e en s : exec (SRaise e) en s = (s, Raised e).
-Proof. reflexivity. Qed.
-Lemma exec_list_cons q r en s : exec_list (q :: r) en s = match exec q en s with (s', Ok) => exec_list r en s' | x => x end.
-Proof. reflexivity. Qed.
-Lemma exec_list_nil en s : exec_list [] en s = (s, Ok).
-Proof. reflexivity. Qed.
-
-Ltac hgs := unfold with_loop, with_local, with_uid_var; cbn [h_node h_nattr h_edge h_eattr h_net h_uid with_node with_nattr with_edge with_eattr with_uid
-                 tab set_tab atab set_atab veval e_args e_flags e_loop e_attr e_loop1 e_locals e_members e_idx e_uid with_loop with_local with_uid_var nth].
-Ltac step := rewrite ?exec_list_cons, ?exec_list_nil, ?exec_if, ?exec_newset, ?exec_newattr, ?exec_add, ?exec_remove, ?exec_del,
-                     ?exec_delattr, ?exec_uid, ?exec_raise; cbn [beval]; hgs; cbn [negb andb];
-             repeat match goal with H : is_none _ = false |- _ => rewrite H end.
-
-Lemma bump_uid_tables e s : h_node (bump_uid e s) = h_node s /\ h_edge (bump_uid e s) = h_edge s /\
-  h_nattr (bump_uid e s) = h_nattr s /\ h_eattr (bump_uid e s) = h_eattr s.
-Proof. unfold bump_uid. destruct (as_int e) as [z|]; [destruct (h_uid s <=? z)|]; repeat split. Qed.
-
-(* ---------- add_node_to_edge: for every state, whatever its shape ---------- *)
-Definition antE_tail : list stmt :=
-  [SIf (BNot (BIn (VArg 1) TNode)) [SNewSet TNode (VArg 1); SNewAttr TNode (VArg 1)] [];
-   SAdd TEdge (VArg 0) (VArg 1); SAdd TNode (VArg 1) (VArg 0)].
-
-Lemma antE_tail_ok e n s1 m : get e (h_edge s1) = Some m ->
-  (let (s', o) := exec_list antE_tail (mkEnv [e; n] [] LNone [] LNone [] [] None LNone) s1 in (s', o, O)) =
-  (if negb (has n (h_node s1)) && is_none n then raise s1 XGIError
-   else ok (node_add n e (edge_add e n (ensure_node n s1)))).
-Proof.
-  intro Ge. unfold antE_tail. step.
-  destruct (has n (h_node s1)) eqn:Hn; cbn [negb andb]; repeat step.
-  - unfold has in Hn. destruct (get n (h_node s1)) as [l|] eqn:Gn; [|discriminate Hn].
-    rewrite Ge. repeat step. rewrite Gn. repeat step.
-    unfold ok, node_add, edge_add, ensure_node, has, getl. rewrite Gn, Ge. hgs. rewrite Gn. reflexivity.
-  - destruct (is_none n) eqn:Nn; [reflexivity|]. repeat step. rewrite Ge. repeat step.
-    rewrite get_set_same. repeat step.
-    unfold ok, node_add, edge_add, ensure_node, getl. rewrite Hn. hgs. rewrite Ge, get_set_same. reflexivity.
-Qed.
 
 Theorem add_node_to_edge_is_source e n s :
   run_method src_add_node_to_edge [e; n] [] s = add_node_to_edge e n s.
@@ -120,48 +20,10 @@ Proof.
     destruct (bump_uid_tables e s0) as (_ & B2 & _). rewrite B2. unfold s0. hgs. apply get_set_same.
 Qed.
 
-(* ---------- remove_edge: on every state satisfying the class invariant ---------- *)
-Lemma fold_node_rem_tables e : forall xs s,
-  h_edge (fold_left (fun s n => node_rem n e s) xs s) = h_edge s /\
-  h_eattr (fold_left (fun s n => node_rem n e s) xs s) = h_eattr s.
-Proof.
-  induction xs as [|x xs IH]; intro s; cbn [fold_left]; [split; reflexivity|].
-  destruct (IH (node_rem x e s)) as [A B]. rewrite A, B. unfold node_rem. destruct (has x (h_node s)); split; reflexivity.
-Qed.
-
-Lemma iter_remove_ok e l0 l1 ms ix u : forall xs s, NoDup xs ->
-  (forall x, In x xs -> exists l, get x (h_node s) = Some l /\ mem e l = true) ->
-  iter_list [SRemove TNode VLoop (VArg 0)] (mkEnv [e] [] l0 [] l1 [] ms ix u) xs s = (fold_left (fun s n => node_rem n e s) xs s, Ok).
-Proof.
-  induction xs as [|x xs IH]; intros s ND H; [reflexivity|]. cbn [iter_list fold_left].
-  inversion ND as [|? ? Hx ND']; subst. destruct (H x (or_introl eq_refl)) as (l & Gl & Ml).
-  rewrite exec_list_cons, exec_remove. hgs. rewrite Gl, Ml. rewrite exec_list_nil.
-  assert (E : with_node s (set x (sremove e l) (h_node s)) = node_rem x e s).
-  { unfold node_rem, has, getl. rewrite Gl. reflexivity. }
-  rewrite E. apply IH; [exact ND'|].
-  intros y Hy. destruct (H y (or_intror Hy)) as (ly & Gy & My). exists ly. split; [|exact My].
-  rewrite <- E. hgs. rewrite get_set_other; [exact Gy|]. intro; subst. contradiction.
-Qed.
-
 Theorem remove_edge_is_source e s : Inv s ->
   run_method src_remove_edge [e] [] s = remove_edge1 e s.
-Proof.
-  intros (W & (_ & Kea & _ & _) & (_ & Vm) & _). unfold run_method, run_method_a, src_remove_edge, remove_edge1.
-  rewrite exec_list_cons, exec_for. hgs. destruct (get e (h_edge s)) as [m|] eqn:Ge; [|reflexivity].
-  assert (Hm : mems s e = m) by (unfold mems, getl; rewrite Ge; reflexivity).
-  rewrite (iter_remove_ok e LNone LNone [] None LNone m s).
-  2:{ rewrite <- Hm. apply Vm. }
-  2:{ intros x Hx. assert (Hi : In e (mships s x)) by (apply W; rewrite Hm; exact Hx).
-      unfold mships, getl in Hi. destruct (get x (h_node s)) as [l|]; [|destruct Hi]. exists l. split; [reflexivity|apply mem_In; exact Hi]. }
-  set (s' := fold_left (fun s n => node_rem n e s) m s). destruct (fold_node_rem_tables e m s) as [A B]. fold s' in A, B.
-  repeat step. rewrite A.
-  assert (He : has e (h_edge s) = true) by (unfold has; rewrite Ge; reflexivity). rewrite He. repeat step.
-  rewrite B. assert (Hea : has e (h_eattr s) = true).
-  { apply has_In. rewrite Kea. apply has_In. exact He. }
-  rewrite Hea. unfold ok, drop_edge. rewrite A, B. reflexivity.
-Qed.
+Proof. exact (remove_edge_prog_ok e s). Qed.
 
-(* ---------- remove_node_from_edge: on every state satisfying the class invariant ---------- *)
 Theorem remove_node_from_edge_is_source e n re s : Inv s ->
   run_method src_remove_node_from_edge [e; n] [re] s = remove_node_from_edge e n re s.
 Proof.
@@ -197,14 +59,6 @@ Proof.
   - repeat step. reflexivity.
 Qed.
 
-(* ---------- add_node(node, **attr): whenever the attribute table has the keys of the node table (KWF) ---------- *)
-Lemma exec_attrupdate t k en s : exec (SAttrUpdate t k) en s =
-  match get (veval k en) (atab t s) with
-  | Some d => (set_atab t s (set (veval k en) (aupdate d (e_attr en)) (atab t s)), Ok)
-  | None => (s, Raised IDNotFound)
-  end.
-Proof. reflexivity. Qed.
-
 Theorem add_node_is_source n a s : keys (h_nattr s) = keys (h_node s) ->
   run_method_a src_add_node [n] [] a s = add_node n a s.
 Proof.
@@ -217,137 +71,6 @@ Proof.
   - repeat step. destruct (is_none n) eqn:Nn; [reflexivity|]. repeat step. rewrite exec_attrupdate. hgs.
     rewrite get_set_same. repeat step.
     unfold ok, nattr_update, ensure_node, geta. rewrite Hn. hgs. rewrite get_set_same. reflexivity.
-Qed.
-
-(* ---------- remove_node(n, strong, remove_empty): on every state satisfying the class invariant ---------- *)
-Lemma exec_bind t k body en s :
-  exec (SBindIn t k body) en s =
-  match get (veval k en) (tab t s) with
-  | None => (s, Raised IDNotFound)
-  | Some m => exec_list body (with_local en m) s
-  end.
-Proof.
-  cbn [exec]. destruct (get (veval k en) (tab t s)) as [m|]; [|reflexivity].
-  generalize s. induction body as [|q r IH]; intro s0; [reflexivity|]. cbn [exec_list].
-  destruct (exec q _ s0) as [s' [|y]]; [apply IH|reflexivity].
-Qed.
-
-Lemma exec_forlocal i minus body en s :
-  exec (SForLocal i minus body) en s =
-  iter_list body en
-            (match minus with Some v => sremove (veval v en) (nth i (e_locals en) []) | None => nth i (e_locals en) [] end) s.
-Proof.
-  cbn [exec]. generalize (match minus with Some v => sremove (veval v en) (nth i (e_locals en) []) | None => nth i (e_locals en) [] end).
-  intro xs. generalize s. induction xs as [|x r IH]; intro s0; [reflexivity|]. cbn [iter_list].
-  assert (E : forall l s1, (fix go (l : list stmt) (s : hg) : hg * outcome :=
-               match l with [] => (s, Ok)
-               | q :: r' => match exec q (with_loop en x) s with (s', Ok) => go r' s' | y => y end end) l s1
-             = exec_list l (with_loop en x) s1).
-  { induction l as [|q r' IHl]; intro s1; [reflexivity|]. cbn [exec_list]. destruct (exec q _ s1) as [s' [|y]]; [apply IHl|reflexivity]. }
-  rewrite E. destruct (exec_list body _ s0) as [s' [|y]]; [apply IH|reflexivity].
-Qed.
-
-(* the inner loop of the strong branch: remove e from the membership sets of the listed nodes *)
-Lemma iter_remove_e_ok args flags locs e l1 ms ix u : forall xs s, NoDup xs ->
-  (forall x, In x xs -> exists l, get x (h_node s) = Some l /\ mem e l = true) ->
-  iter_list [SRemove TNode VLoop VLoop1] (mkEnv args flags e [] l1 locs ms ix u) xs s = (fold_left (fun s m => node_rem m e s) xs s, Ok).
-Proof.
-  induction xs as [|x xs IH]; intros s ND H; [reflexivity|]. cbn [iter_list fold_left].
-  inversion ND as [|? ? Hx ND']; subst. destruct (H x (or_introl eq_refl)) as (l & Gl & Ml).
-  rewrite exec_list_cons, exec_remove. hgs. rewrite Gl, Ml. rewrite exec_list_nil.
-  assert (E : with_node s (set x (sremove e l) (h_node s)) = node_rem x e s).
-  { unfold node_rem, has, getl. rewrite Gl. reflexivity. }
-  rewrite E. apply IH; [exact ND'|].
-  intros y Hy. destruct (H y (or_intror Hy)) as (ly & Gy & My). exists ly. split; [|exact My].
-  rewrite <- E. hgs. rewrite get_set_other; [exact Gy|]. intro; subst. contradiction.
-Qed.
-
-(* what the strong loop needs of the edges still to be processed *)
-Definition StrongQ (n : lbl) (s0 s : hg) (es : list lbl) : Prop :=
-  forall e, In e es -> exists m, get e (h_edge s) = Some m /\ get e (h_edge s0) = Some m /\ NoDup m /\
-                                 has e (h_eattr s) = true /\
-                                 forall x, In x m -> x <> n -> exists l, get x (h_node s) = Some l /\ mem e l = true.
-
-Lemma strong_loop_ok n flags locs s0 lp0 lp1 ms ix u : forall es s, NoDup es -> StrongQ n s0 s es ->
-  iter_list [SBindIn TEdge VLoop [SDel TEdge VLoop; SDelAttr TEdge VLoop; SForLocal 0 (Some (VArg 0)) [SRemove TNode VLoop VLoop1]]]
-            (mkEnv [n] flags lp0 [] lp1 locs ms ix u) es s =
-  (fold_left (fun s e => let nbrs := getl e (h_edge s) in let s' := drop_edge e s in
-                         fold_left (fun s m => node_rem m e s) (sremove n nbrs) s') es s, Ok).
-Proof.
-  induction es as [|e es IH]; intros s ND Q; [reflexivity|]. cbn [iter_list fold_left].
-  inversion ND as [|? ? He ND']; subst.
-  destruct (Q e (or_introl eq_refl)) as (m & Gm & _ & NDm & Ha & Hn).
-  rewrite exec_list_cons, exec_bind. hgs. rewrite Gm. rewrite exec_list_cons, exec_del. hgs.
-  assert (Hh : has e (h_edge s) = true) by (unfold has; rewrite Gm; reflexivity). rewrite Hh.
-  rewrite exec_list_cons, exec_delattr. hgs. rewrite Ha.
-  rewrite exec_list_cons, exec_forlocal. hgs.
-  set (s' := with_eattr (with_edge s (del e (h_edge s))) (del e (h_eattr s))).
-  assert (Ed : s' = drop_edge e s) by reflexivity.
-  rewrite (iter_remove_e_ok [n] flags (m :: locs) e lp0 ms ix u (sremove n m) s').
-  2:{ apply NoDup_sremove. exact NDm. }
-  2:{ intros x Hx. apply In_sremove in Hx. destruct Hx as [Nx Hx]. destruct (Hn x Hx Nx) as (l & Gl & Ml). exists l. split; [exact Gl|exact Ml]. }
-  rewrite !exec_list_nil.
-  assert (Egl : getl e (h_edge s) = m) by (unfold getl; rewrite Gm; reflexivity). rewrite Egl. rewrite <- Ed.
-  set (s2 := fold_left (fun s m0 => node_rem m0 e s) (sremove n m) s').
-  apply IH; [exact ND'|].
-  (* the invariant for the remaining edges *)
-  intros e' He'. assert (Ne : e' <> e) by (intro; subst; contradiction).
-  destruct (Q e' (or_intror He')) as (m' & Gm' & G0' & NDm' & Ha' & Hn').
-  destruct (fold_node_rem_tables e (sremove n m) s') as [T1 T2]. fold s2 in T1, T2.
-  exists m'. split; [rewrite T1; unfold s'; hgs; rewrite get_del_other by exact Ne; exact Gm'|].
-  split; [exact G0'|]. split; [exact NDm'|].
-  split; [rewrite T2; unfold s', has; hgs; rewrite get_del_other by exact Ne; exact Ha'|].
-  intros x Hx Nx. destruct (Hn' x Hx Nx) as (l & Gl & Ml).
-  (* node x after removing e from the listed nodes: its set is l or l minus e, and e' stays *)
-  assert (G : forall ys t, (exists l0, get x (h_node t) = Some l0 /\ mem e' l0 = true) ->
-              exists l0, get x (h_node (fold_left (fun s m0 => node_rem m0 e s) ys t)) = Some l0 /\ mem e' l0 = true).
-  { induction ys as [|y ys IHy]; intros t Ht; [exact Ht|]. cbn [fold_left]. apply IHy.
-    destruct Ht as (l0 & G0 & M0). unfold node_rem. destruct (has y (h_node t)) eqn:Hy; [|exists l0; auto]. hgs.
-    destruct (lbl_eqb_spec x y) as [->|Nxy].
-    - rewrite get_set_same. exists (sremove e (getl y (h_node t))). split; [reflexivity|].
-      unfold getl. rewrite G0. apply mem_In. apply In_sremove. split; [exact Ne|apply mem_In; exact M0].
-    - rewrite get_set_other by exact Nxy. exists l0. auto. }
-  apply G. exists l. split; [unfold s'; hgs; exact Gl|exact Ml].
-Qed.
-
-Definition WeakQ (n : lbl) (s : hg) (es : list lbl) : Prop :=
-  forall e, In e es -> exists m, get e (h_edge s) = Some m /\ mem n m = true /\ has e (h_eattr s) = true.
-
-Lemma weak_loop_ok n strong re locs l0 l1 ms ix u : forall es s, NoDup es -> WeakQ n s es ->
-  iter_list [SRemove TEdge VLoop (VArg 0); SIf (BAnd (BEmptySet VLoop TEdge) (BFlag 1)) [SDel TEdge VLoop; SDelAttr TEdge VLoop] []]
-            (mkEnv [n] [strong; re] l0 [] l1 locs ms ix u) es s =
-  (fold_left (fun s e => let s' := edge_rem e n s in
-                         if (match getl e (h_edge s') with [] => true | _ => false end) && re && has e (h_edge s')
-                         then drop_edge e s' else s') es s, Ok).
-Proof.
-  induction es as [|e es IH]; intros s ND Q; [reflexivity|]. cbn [iter_list fold_left].
-  inversion ND as [|? ? He ND']; subst.
-  destruct (Q e (or_introl eq_refl)) as (m & Gm & Mn & Ha).
-  rewrite exec_list_cons, exec_remove. hgs. rewrite Gm, Mn.
-  assert (E1 : with_edge s (set e (sremove n m) (h_edge s)) = edge_rem e n s).
-  { unfold edge_rem, has, getl. rewrite Gm. reflexivity. }
-  rewrite E1. set (s' := edge_rem e n s).
-  assert (Ge' : get e (h_edge s') = Some (sremove n m)) by (unfold s'; rewrite <- E1; hgs; apply get_set_same).
-  assert (Ha' : h_eattr s' = h_eattr s) by (unfold s'; rewrite <- E1; reflexivity).
-  assert (Hh' : has e (h_edge s') = true) by (unfold has; rewrite Ge'; reflexivity).
-  assert (Gl' : getl e (h_edge s') = sremove n m) by (unfold getl; rewrite Ge'; reflexivity).
-  rewrite exec_list_cons, exec_if. cbn [beval]. hgs. rewrite Ge'. cbv zeta. rewrite Gl', Hh'.
-  assert (Rest : forall t, (h_eattr t = del e (h_eattr s) \/ h_eattr t = h_eattr s) ->
-                           (forall e', e' <> e -> get e' (h_edge t) = get e' (h_edge s)) -> WeakQ n t es).
-  { intros t Hat Het e' He'. assert (Ne : e' <> e) by (intro; subst; contradiction).
-    destruct (Q e' (or_intror He')) as (m' & Gm' & Mn' & Ha2). exists m'. split; [rewrite Het by exact Ne; exact Gm'|].
-    split; [exact Mn'|]. destruct Hat as [Hat|Hat]; rewrite Hat; [unfold has; rewrite get_del_other by exact Ne; exact Ha2|exact Ha2]. }
-  assert (Oth : forall e', e' <> e -> get e' (h_edge s') = get e' (h_edge s)).
-  { intros e' Ne. unfold s'. rewrite <- E1. hgs. apply get_set_other. exact Ne. }
-  destruct (sremove n m) as [|y r] eqn:Es; cbn [andb].
-  - destruct re; cbn [nth andb].
-    + rewrite exec_list_cons, exec_del. hgs. rewrite Hh'. rewrite exec_list_cons, exec_delattr. hgs. rewrite Ha', Ha. rewrite !exec_list_nil.
-      assert (Ed : with_eattr (with_edge s' (del e (h_edge s'))) (del e (h_eattr s)) = drop_edge e s') by (unfold drop_edge; rewrite Ha'; reflexivity).
-      rewrite Ed. apply IH; [exact ND'|]. apply Rest.
-      * left. unfold drop_edge. hgs. rewrite Ha'. reflexivity.
-      * intros e' Ne. unfold drop_edge. hgs. rewrite get_del_other by exact Ne. apply Oth. exact Ne.
-    + rewrite !exec_list_nil. apply IH; [exact ND'|]. apply Rest; [right; exact Ha'|exact Oth].
-  - rewrite !exec_list_nil. apply IH; [exact ND'|]. apply Rest; [right; exact Ha'|exact Oth].
 Qed.
 
 Theorem remove_node_is_source n strong re s : Inv s ->
@@ -369,7 +92,7 @@ Proof.
   { intros e m G. apply has_In. rewrite Kea. apply (get_Some_In e (h_edge s) m G). }
   rewrite exec_list_cons, exec_if. cbn [beval]. hgs. destruct strong; cbn [nth].
   - rewrite exec_list_cons, exec_forlocal. hgs.
-    rewrite (strong_loop_ok n [true; re] [es] s LNone LNone [] None LNone es s1 NDes).
+    rewrite (strong_loop_ok n [true; re] [es] s LNone LNone [] None LNone [] es s1 NDes).
     + rewrite !exec_list_nil. rewrite E1. reflexivity.
     + intros e He. destruct (Edge e He) as (m & Gm & Hnm). exists m. split; [unfold s1; hgs; exact Gm|]. split; [exact Gm|].
       split; [pose proof (Vm e) as V; unfold mems, getl in V; rewrite Gm in V; exact V|].
@@ -378,93 +101,10 @@ Proof.
       unfold mships, getl in Hi. destruct (get x (h_node s)) as [l|] eqn:Gx; [|destruct Hi].
       exists l. split; [unfold s1; hgs; rewrite get_del_other by exact Nx; exact Gx|apply mem_In; exact Hi].
   - rewrite exec_list_cons, exec_forlocal. hgs.
-    rewrite (weak_loop_ok n false re [es] LNone LNone [] None LNone es s1 NDes).
+    rewrite (weak_loop_ok n false re [es] LNone LNone [] None LNone [] es s1 NDes).
     + rewrite !exec_list_nil. rewrite E1. reflexivity.
     + intros e He. destruct (Edge e He) as (m & Gm & Hnm). exists m. split; [unfold s1; hgs; exact Gm|].
       split; [apply mem_In; exact Hnm|unfold s1; hgs; apply (Eattr e m Gm)].
-Qed.
-
-
-(* ---------- add_edge(members, idx=None, **attr) ---------- *)
-Lemma exec_binduid body en s :
-  exec (SBindUid body) en s =
-  exec_list body (with_uid_var en (match e_idx en with Some i => i | None => LInt (h_uid s) end))
-            (match e_idx en with Some _ => s | None => with_uid s (h_uid s + 1) end).
-Proof.
-  cbn [exec]. generalize (match e_idx en with Some _ => s | None => with_uid s (h_uid s + 1) end).
-  induction body as [|q r IH]; intro s0; [reflexivity|]. cbn [exec_list].
-  destruct (exec q _ s0) as [s' [|y]]; [apply IH|reflexivity].
-Qed.
-
-Lemma exec_formembers body en s : exec (SForMembers body) en s = iter_list body en (e_members en) s.
-Proof.
-  cbn [exec]. generalize (e_members en). intro xs. generalize s. induction xs as [|x r IH]; intro s0; [reflexivity|]. cbn [iter_list].
-  assert (E : forall l s1, (fix go (l : list stmt) (s : hg) : hg * outcome :=
-               match l with [] => (s, Ok)
-               | q :: r' => match exec q (with_loop en x) s with (s', Ok) => go r' s' | y => y end end) l s1
-             = exec_list l (with_loop en x) s1).
-  { induction l as [|q r' IHl]; intro s1; [reflexivity|]. cbn [exec_list]. destruct (exec q _ s1) as [s' [|y]]; [apply IHl|reflexivity]. }
-  rewrite E. destruct (exec_list body _ s0) as [s' [|y]]; [apply IH|reflexivity].
-Qed.
-
-Lemma set_set_same {V} k (v1 v2 : V) d : set k v2 (set k v1 d) = set k v2 d.
-Proof.
-  induction d as [|[k' v'] r IH]; cbn [set].
-  - rewrite lbl_eqb_refl. reflexivity.
-  - destruct (lbl_eqb k k') eqn:E; cbn [set]; rewrite E; [reflexivity|]. rewrite IH. reflexivity.
-Qed.
-
-Lemma attach_has_edge e n s : has e (h_edge (attach e s n)) = true.
-Proof. unfold attach, edge_add, has. hgs. rewrite get_set_same. reflexivity. Qed.
-
-(* the member loop: for each node, create it if new, then record the membership on both sides *)
-Lemma member_loop_ok e a l0 l1 ms ix : forall xs s,
-  (forall x, In x xs -> is_none x = false) -> has e (h_edge s) = true ->
-  iter_list [SIf (BNot (BIn VLoop TNode)) [SNewSet TNode VLoop; SNewAttr TNode VLoop] []; SAdd TNode VLoop VUid; SAdd TEdge VUid VLoop]
-            (mkEnv [] [] l0 a l1 [] ms ix e) xs s = (fold_left (attach e) xs s, Ok).
-Proof.
-  induction xs as [|x xs IH]; intros s Hn He; [reflexivity|]. cbn [iter_list fold_left].
-  assert (Nx : is_none x = false) by (apply Hn; left; reflexivity).
-  assert (Goal1 : exec_list [SIf (BNot (BIn VLoop TNode)) [SNewSet TNode VLoop; SNewAttr TNode VLoop] []; SAdd TNode VLoop VUid; SAdd TEdge VUid VLoop]
-                    (with_loop (mkEnv [] [] l0 a l1 [] ms ix e) x) s = (attach e s x, Ok)).
-  { rewrite exec_list_cons, exec_if. cbn [beval]. hgs.
-    unfold attach, ensure_node.
-    destruct (has x (h_node s)) eqn:Hx; cbn [negb].
-    - rewrite exec_list_nil. unfold has in Hx. destruct (get x (h_node s)) as [l|] eqn:Gx; [|discriminate Hx].
-      rewrite exec_list_cons, exec_add. hgs. rewrite Gx. rewrite exec_list_cons, exec_add. hgs.
-      unfold has in He. destruct (get e (h_edge s)) as [m|] eqn:Ge; [|discriminate He]. rewrite exec_list_nil.
-      unfold node_add, edge_add, getl. hgs. rewrite Gx, Ge. reflexivity.
-    - rewrite exec_list_cons, exec_newset. hgs. rewrite Nx. rewrite exec_list_cons, exec_newattr. hgs. rewrite Nx. rewrite exec_list_nil.
-      rewrite exec_list_cons, exec_add. hgs. rewrite get_set_same. rewrite exec_list_cons, exec_add. hgs.
-      unfold has in He. destruct (get e (h_edge s)) as [m|] eqn:Ge; [|discriminate He]. rewrite exec_list_nil.
-      unfold node_add, edge_add, getl. hgs. rewrite get_set_same, Ge. reflexivity. }
-  rewrite Goal1. apply IH; [intros y Hy; apply Hn; right; exact Hy|apply attach_has_edge].
-Qed.
-
-Lemma fold_attach_has_edge e : forall xs s, has e (h_edge s) = true -> has e (h_edge (fold_left (attach e) xs s)) = true.
-Proof. induction xs as [|x xs IH]; intros s H; [exact H|]. cbn [fold_left]. apply IH. apply attach_has_edge. Qed.
-
-Lemma fold_attach_eattr e : forall xs s, h_eattr (fold_left (attach e) xs s) = h_eattr s.
-Proof. induction xs as [|x xs IH]; intro s; [reflexivity|]. cbn [fold_left]. rewrite IH. unfold attach, edge_add, node_add, ensure_node. destruct (has x (h_node s)); reflexivity. Qed.
-
-(* the statements after the guards, once the id is known *)
-Lemma add_edge_body_ok a ms ix u s0 rest :
-  is_none u = false -> (forall x, In x ms -> is_none x = false) ->
-  exec_list [SNewSet TEdge VUid;
-             SForMembers [SIf (BNot (BIn VLoop TNode)) [SNewSet TNode VLoop; SNewAttr TNode VLoop] []; SAdd TNode VLoop VUid; SAdd TEdge VUid VLoop];
-             SNewAttr TEdge VUid; SAttrUpdate TEdge VUid; rest]
-            (mkEnv [] [] LNone a LNone [] ms ix u) s0 =
-  exec_list [rest] (mkEnv [] [] LNone a LNone [] ms ix u) (insert_edge u ms a s0).
-Proof.
-  intros Nu Hms. rewrite exec_list_cons, exec_newset. hgs. rewrite Nu.
-  rewrite exec_list_cons, exec_formembers. hgs.
-  set (s1 := with_edge s0 (set u [] (h_edge s0))).
-  assert (H1 : has u (h_edge s1) = true) by (unfold s1, has; hgs; rewrite get_set_same; reflexivity).
-  rewrite (member_loop_ok u a LNone LNone ms ix ms s1 Hms H1).
-  set (s2 := fold_left (attach u) ms s1).
-  rewrite exec_list_cons, exec_newattr. hgs. rewrite Nu.
-  rewrite exec_list_cons, exec_attrupdate. hgs. rewrite get_set_same. rewrite set_set_same.
-  unfold insert_edge. fold s1. fold s2. reflexivity.
 Qed.
 
 Theorem add_edge_is_source members idx a s :
@@ -488,15 +128,6 @@ Proof.
     rewrite exec_list_cons, exec_if. cbn [beval]. hgs. cbn [negb]. rewrite !exec_list_nil. reflexivity.
 Qed.
 
-
-(* ---------- clear(remove_net_attr) : on every state ---------- *)
-Lemma exec_clear t en s : exec (SClear t) en s = (set_tab t s [], Ok).
-Proof. reflexivity. Qed.
-Lemma exec_clearattr t en s : exec (SClearAttr t) en s = (set_atab t s [], Ok).
-Proof. reflexivity. Qed.
-Lemma exec_clearnet en s : exec SClearNet en s = (mkHG (h_node s) (h_nattr s) (h_edge s) (h_eattr s) [] (h_uid s), Ok).
-Proof. reflexivity. Qed.
-
 Theorem clear_is_source b s : run_method_l src_clear [] [b] s = clear b s.
 Proof.
   unfold run_method_l, src_clear, clear.
@@ -504,47 +135,6 @@ Proof.
   rewrite exec_list_cons, exec_if. cbn [beval]. hgs. destruct b.
   - rewrite exec_list_cons, exec_clearnet, !exec_list_nil. reflexivity.
   - rewrite !exec_list_nil. unfold ok. hgs. reflexivity.
-Qed.
-
-(* ---------- clear_edges() : whenever the node table has distinct keys, none of them None ---------- *)
-Lemma exec_forkeys t body en s : exec (SForKeys t body) en s = iter_list body en (keys (tab t s)) s.
-Proof.
-  cbn [exec]. generalize (keys (tab t s)). intro xs. generalize s. induction xs as [|x r IH]; intro s0; [reflexivity|]. cbn [iter_list].
-  assert (E : forall l s1, (fix go (l : list stmt) (s : hg) : hg * outcome :=
-               match l with [] => (s, Ok)
-               | q :: r' => match exec q (with_loop en x) s with (s', Ok) => go r' s' | y => y end end) l s1
-             = exec_list l (with_loop en x) s1).
-  { induction l as [|q r' IHl]; intro s1; [reflexivity|]. cbn [exec_list]. destruct (exec q _ s1) as [s' [|y]]; [apply IHl|reflexivity]. }
-  rewrite E. destruct (exec_list body _ s0) as [s' [|y]]; [apply IH|reflexivity].
-Qed.
-
-Lemma reset_loop_ok en : forall xs s, (forall x, In x xs -> is_none x = false) ->
-  iter_list [SNewSet TNode VLoop] en xs s = (with_node s (fold_left (fun d x => set x [] d) xs (h_node s)), Ok).
-Proof.
-  induction xs as [|x xs IH]; intros s H; [destruct s; reflexivity|]. cbn [iter_list fold_left].
-  rewrite exec_list_cons, exec_newset. hgs. rewrite (H x (or_introl eq_refl)). rewrite exec_list_nil.
-  rewrite IH by (intros y Hy; apply H; right; exact Hy). reflexivity.
-Qed.
-
-Lemma set_app_notin {V} k (v : V) d1 d2 : ~ In k (keys d1) -> set k v (d1 ++ d2) = d1 ++ set k v d2.
-Proof.
-  induction d1 as [|[k' v'] r IH]; intro H; [reflexivity|]. cbn [app set].
-  destruct (lbl_eqb_spec k k') as [->|N]; [exfalso; apply H; left; reflexivity|].
-  rewrite IH; [reflexivity|]. intro Hi. apply H. right. exact Hi.
-Qed.
-
-Lemma reset_all (d2 : odict (list lbl)) : forall d1, NoDup (keys (d1 ++ d2)) ->
-  fold_left (fun d x => set x [] d) (keys d2) (d1 ++ d2) = d1 ++ map (fun kv => (fst kv, [])) d2.
-Proof.
-  induction d2 as [|[k v] r IH]; intros d1 ND; [reflexivity|]. cbn [keys map fold_left fst].
-  assert (Hk : ~ In k (keys d1)).
-  { unfold keys in ND. rewrite map_app in ND. cbn [map fst] in ND. apply NoDup_remove_2 in ND.
-    intro Hi. apply ND. apply in_or_app. left. exact Hi. }
-  rewrite set_app_notin by exact Hk. cbn [set]. rewrite lbl_eqb_refl.
-  change (d1 ++ (k, []) :: r) with (d1 ++ [(k, @nil lbl)] ++ r). rewrite app_assoc.
-  change (map fst r) with (keys r). rewrite IH.
-  - rewrite <- app_assoc. reflexivity.
-  - rewrite <- app_assoc. unfold keys in *. rewrite map_app in *. cbn [map fst app] in *. exact ND.
 Qed.
 
 Theorem clear_edges_is_source s : NoDup (keys (h_node s)) -> ~ In LNone (keys (h_node s)) ->
@@ -557,47 +147,11 @@ Proof.
   pose proof (reset_all (h_node s) [] ND) as R. cbn [app] in R. rewrite R. reflexivity.
 Qed.
 
-(* ---------- remove_edges_from(ebunch) : on every state satisfying the class invariant ---------- *)
-Lemma remove_one_ok e args flags l1 locs ms ix u s : Inv s ->
-  exec_list [SForCopy TEdge VLoop [SRemove TNode VLoop VLoop1]; SDel TEdge VLoop; SDelAttr TEdge VLoop]
-            (mkEnv args flags e [] l1 locs ms ix u) s =
-  (st_of (remove_edge1 e s), out_of (remove_edge1 e s)).
-Proof.
-  intros (W & (_ & Kea & _ & _) & (_ & Vm) & _). unfold remove_edge1.
-  rewrite exec_list_cons, exec_for. hgs. destruct (get e (h_edge s)) as [m|] eqn:Ge; [|reflexivity].
-  assert (Hm : mems s e = m) by (unfold mems, getl; rewrite Ge; reflexivity).
-  rewrite (iter_remove_e_ok args flags locs e l1 ms ix u m s).
-  2:{ rewrite <- Hm. apply Vm. }
-  2:{ intros x Hx. assert (Hi : In e (mships s x)) by (apply W; rewrite Hm; exact Hx).
-      unfold mships, getl in Hi. destruct (get x (h_node s)) as [l|]; [|destruct Hi]. exists l. split; [reflexivity|apply mem_In; exact Hi]. }
-  set (s' := fold_left (fun s n => node_rem n e s) m s). destruct (fold_node_rem_tables e m s) as [A B]. fold s' in A, B.
-  rewrite exec_list_cons, exec_del. hgs. rewrite A.
-  assert (He : has e (h_edge s) = true) by (unfold has; rewrite Ge; reflexivity). rewrite He.
-  rewrite exec_list_cons, exec_delattr. hgs. rewrite B.
-  assert (Hea : has e (h_eattr s) = true) by (apply has_In; rewrite Kea; apply has_In; exact He).
-  rewrite Hea, exec_list_nil. unfold ok, drop_edge, st_of, out_of. cbn [fst snd]. rewrite A, B. reflexivity.
-Qed.
-
-Lemma remove_edge1_no_warn e s : snd (remove_edge1 e s) = O.
-Proof. unfold remove_edge1. destruct (get e (h_edge s)); reflexivity. Qed.
-
-Lemma remove_loop_ok args flags l0 l1 locs ms ix u : forall es s, Inv s ->
-  (let (s', o) := iter_list [SForCopy TEdge VLoop [SRemove TNode VLoop VLoop1]; SDel TEdge VLoop; SDelAttr TEdge VLoop]
-                            (mkEnv args flags l0 [] l1 locs ms ix u) es s in (s', o, O)) = remove_edges_from es s.
-Proof.
-  induction es as [|e es IH]; intros s I; [reflexivity|]. unfold remove_edges_from. cbn [iter_list loop]. hgs.
-  rewrite (remove_one_ok e args flags l0 locs ms ix u s I).
-  pose proof (Inv_remove_edge1 e s I) as I'. pose proof (remove_edge1_no_warn e s) as Wn.
-  destruct (remove_edge1 e s) as [[s1 o1] w1]. cbn [st_of out_of fst snd] in *. subst w1.
-  destruct o1 as [|x]; [|reflexivity].
-  specialize (IH s1 I'). unfold remove_edges_from in IH. rewrite <- IH.
-  destruct (iter_list _ _ es s1) as [s2 o2]. reflexivity.
-Qed.
-
 Theorem remove_edges_from_is_source es s : Inv s ->
   run_method_l src_remove_edges_from es [] s = remove_edges_from es s.
 Proof.
   intro I. unfold run_method_l, src_remove_edges_from. rewrite exec_list_cons, exec_formembers. hgs.
-  rewrite <- (remove_loop_ok [] [] LNone LNone [] es None LNone es s I).
+  rewrite <- (remove_loop_ok [] [] LNone LNone [] es None LNone [] es s I).
   destruct (iter_list _ _ es s) as [s' [|x]]; [rewrite exec_list_nil|]; reflexivity.
 Qed.
+
